@@ -517,6 +517,8 @@ theorem lemma_parse_head (s : Str) (t : List Str) (h : parse s = some t) :
 /-- all characters are ASCII digits -/
 def Digits (ds : Str) : Prop := ∀ c ∈ ds, isDigit c = true
 
+instance (ds : Str) : Decidable (Digits ds) := by unfold Digits; infer_instance
+
 /-- value of a digit string -/
 def decVal (ds : Str) : Nat := natOfDigits (ds.map digitVal)
 
